@@ -15,6 +15,7 @@ R10.sinc    sinx_over_x(x) = sin(x)/x for every |x| >= 1 of either sign (interva
 R10.slerp   slerpShortestArc negates q2 exactly when q1.q2 < 0; slerp(t=0) = normalized(q1), slerp(t=1) = normalized(q2);
             slerp(q1,q2,t) is unit with slerp . q1 = cos(t a), slerp . q2 = cos((1-t) a), a = angle4D(q1,q2) (addition formulas)
 """
+import os
 from fractions import Fraction
 from engine import term as T, agg, build, vg, poly as P, polycheck as PC
 from engine.agg import ELEM, TU
@@ -508,6 +509,60 @@ def main(rep, ws, tier):
                     want = [ctx.rmul(ctx.rdiv(lf, lt_), a_) for a_ in tv]
                     if not all(ctx.requal(a_, b_) for a_, b_ in zip(img, want)): return ('%s path %s: `from` is carried onto -to, not to' % (scen, PC.show_asg(asg)[:100]), None, fn_where(S.fn))
                 results.append('%s: %d path(s)' % (scen, n_))
+            # exactly opposite vectors: WHICH coordinate axis the rotation axis is built from is decided by comparisons of the
+            # components of `from`; on every sign / magnitude pattern of a non-zero `from` (lattice {-2..2}^3) the chosen
+            # path must still give a unit quaternion (an axis parallel to `from` gives the zero cross product)
+            import itertools, math
+            ctx0 = P.Ctx(); ctx0.cancel = True
+            for x, y in zip(f, to): ctx0.lin[ctx0.key(y)] = P.pneg(P.patom(ctx0.key(x)))
+            kf0 = [ctx0.key(x) for x in f]
+            ctx0.rules[kf0[2]] = P.psub(P.psub(P.pconst(1), P.ppow(P.patom(kf0[0]), 2)), P.ppow(P.patom(kf0[1]), 2))
+            cases_opp = list(PC.generic_cases(o, ctx0, enumerate_cond=enum, premise=premise, max_enum=8))
+            def numeric(ctx, r):
+                def val(p_):
+                    tot = 0.0
+                    for mono, c_ in p_.items():
+                        v = float(c_)
+                        for k_, e_ in mono:
+                            rad = ctx.rules.get(k_)
+                            if rad is None or any(m_ for m_ in rad if m_ != ()): raise P.NotPoly('atom without a numeric value')
+                            v *= math.sqrt(float(rad.get((), 0))) ** e_
+                        tot += v
+                    return tot
+                return val(r[0]) / val(r[1])
+            npat = 0
+            for fv_ in itertools.product(range(-2, 3), repeat=3):
+                if fv_ == (0, 0, 0): continue
+                cx = P.Ctx(); cx.cancel = True
+                for x, c_ in zip(f, fv_): cx.lin[cx.key(x)] = P.pconst(c_)
+                for x, c_ in zip(to, fv_): cx.lin[cx.key(x)] = P.pconst(-c_)
+                chosen = None
+                for asg, res in cases_opp:
+                    okc = True
+                    for c, v in asg.items():
+                        if not (c.op == 'fcmp' and c.attr in ('olt', 'ole')) or tiny(c): continue
+                        try:
+                            d_ = cx.radd(cx.rat(c.args[0]), neg(cx.rat(c.args[1])))
+                            val = 0.0 if cx.rzero(d_) else numeric(cx, d_)
+                        except P.NotPoly as e_:
+                            if os.environ.get('VERIF_DEBUG'): print('DBG', fv_, T.show(c, 3)[:100], e_)
+                            okc = None; break
+                        tv_ = (val < 0) if c.attr == 'olt' else (val <= 0)
+                        if os.environ.get('VERIF_DEBUG') and fv_ == (1, 2, -1): print('DBG', T.show(c, 4)[:160], val, tv_, v)
+                        if tv_ != v: okc = False; break
+                    if okc: chosen = (asg, res); break
+                if chosen is None: continue            # the lattice point is not on the exactly-opposite path of any enumerated case (e.g. a tie the premises exclude)
+                npat += 1
+                try:
+                    q = [cx.rat(x) for x in chosen[1]]
+                    nn = sum_r(cx, [cx.rmul(x, x) for x in q])
+                    bad_ = not cx.requal(nn, (ONE, ONE))
+                except P.NotPoly as e:
+                    bad_ = 'zero polynomial' in str(e)
+                    if not bad_: raise
+                if bad_: return ('exactly opposite vectors with from = %s: the axis chosen for the half turn is parallel to `from` (zero cross product), the result is not a unit quaternion' % (list(fv_),), None, fn_where(S.fn))
+            if npat < 60: return ('only %d lattice directions reached a path of the exactly-opposite branch' % npat, None, fn_where(S.fn))
+            results.append('opposite: unit on %d lattice directions of every sign / order pattern' % npat)
             return (None, 'unit quaternion carrying from/|from| onto to/|to| (%s)' % '; '.join(results), fn_where(S.fn))
         ob('setRotation(from,to)', 'R10.setrot', setrot)
 
